@@ -48,6 +48,8 @@ type skb struct {
 	closures map[string]*ast.FuncLit // local `f := func...`
 	maps     map[string]bool         // names of maps whose accesses are actions
 	fields   map[string]bool         // names of struct fields / package variables whose every mention is an action
+	acqNames map[string]bool         // callees fused into `.acq` with the following `if err != nil {…}` (default: acquireLock)
+	acqMark  string                  // if set, an action of this name follows every fused acquire (its success continuation)
 }
 
 func sSeq(a, b string) string {
@@ -62,8 +64,8 @@ func sSeq(a, b string) string {
 
 func sAct(n string) string { return "(.act " + leanStr(n) + ")" }
 
-// isAcquire: `x := acquireLock(...)` / `x = acquireLock(...)`
-func isAcquire(s ast.Stmt) bool {
+// isAcquire: `x := acquireLock(...)` / `x = acquireLock(...)` (or another configured callee)
+func (b *skb) isAcquire(s ast.Stmt) bool {
 	a, ok := s.(*ast.AssignStmt)
 	if !ok || len(a.Rhs) != 1 {
 		return false
@@ -72,8 +74,24 @@ func isAcquire(s ast.Stmt) bool {
 	if !ok {
 		return false
 	}
-	id, ok := c.Fun.(*ast.Ident)
-	return ok && id.Name == "acquireLock"
+	name := ""
+	switch f := c.Fun.(type) {
+	case *ast.Ident:
+		name = f.Name
+	case *ast.SelectorExpr:
+		name = f.Sel.Name
+	}
+	if len(b.acqNames) == 0 {
+		return name == "acquireLock"
+	}
+	return b.acqNames[name]
+}
+
+func (b *skb) acqNode(fail string) string {
+	if b.acqMark != "" {
+		return "(.seq (.acq " + fail + ") " + sAct(b.acqMark) + ")"
+	}
+	return "(.acq " + fail + ")"
 }
 
 func isErrNotNil(e ast.Expr) bool {
@@ -92,16 +110,16 @@ func (b *skb) block(stmts []ast.Stmt) string {
 	var parts []string
 	for i := 0; i < len(stmts); i++ {
 		// idiom (a): err = acquireLock(..) ; if err != nil { fail }
-		if isAcquire(stmts[i]) && i+1 < len(stmts) {
+		if b.isAcquire(stmts[i]) && i+1 < len(stmts) {
 			if ifs, ok := stmts[i+1].(*ast.IfStmt); ok && ifs.Init == nil && ifs.Else == nil && isErrNotNil(ifs.Cond) {
-				parts = append(parts, "(.acq "+b.block(ifs.Body.List)+")")
+				parts = append(parts, b.acqNode(b.block(ifs.Body.List)))
 				i++
 				continue
 			}
 		}
 		// idiom (b): if err := acquireLock(..); err != nil { fail }
-		if ifs, ok := stmts[i].(*ast.IfStmt); ok && ifs.Init != nil && ifs.Else == nil && isAcquire(ifs.Init) && isErrNotNil(ifs.Cond) {
-			parts = append(parts, "(.acq "+b.block(ifs.Body.List)+")")
+		if ifs, ok := stmts[i].(*ast.IfStmt); ok && ifs.Init != nil && ifs.Else == nil && b.isAcquire(ifs.Init) && isErrNotNil(ifs.Cond) {
+			parts = append(parts, b.acqNode(b.block(ifs.Body.List)))
 			continue
 		}
 		parts = append(parts, b.stmt(stmts[i]))
@@ -363,7 +381,14 @@ func (p *pkgInfo) skeleton(key string, maps ...string) (string, bool) {
 	}
 	b := &skb{closures: map[string]*ast.FuncLit{}, maps: map[string]bool{}, fields: map[string]bool{}}
 	for _, m := range maps {
-		if strings.HasPrefix(m, "field:") {
+		if strings.HasPrefix(m, "acq:") {
+			if b.acqNames == nil {
+				b.acqNames = map[string]bool{}
+			}
+			b.acqNames[strings.TrimPrefix(m, "acq:")] = true
+		} else if strings.HasPrefix(m, "acqmark:") {
+			b.acqMark = strings.TrimPrefix(m, "acqmark:")
+		} else if strings.HasPrefix(m, "field:") {
 			b.fields[strings.TrimPrefix(m, "field:")] = true
 		} else {
 			b.maps[m] = true
